@@ -346,7 +346,7 @@ impl<'a, 'tcx> Ex<'a, 'tcx> {
             ExprKind::NamedConst { def_id, args, .. } => {
                 let mut o = self.node("const", e);
                 o.put("path", J::s(path(tcx, *def_id)));
-                o.put("name", J::s(tcx.item_name(*def_id).to_string()));
+                o.put("name", J::s(name_of(tcx, *def_id)));
                 o.put("args", args_j(tcx, args));
                 o.put("ty", ty_j(tcx, e.ty));
                 self.const_ref(*def_id, args, &mut o);
